@@ -7,7 +7,7 @@ def run(ctx):
     ctx.design("Shard", "Shard.cfg", timeout=900, tag="shard_design")
     m = ctx.tlc("Shard", "Shard_mut.cfg", workers=4, timeout=600, tag="shard_mutant", allow_fail=True)
     ctx.notes["design_mutant_ReissueParent_rejected"] = bool(m.violated)
-    n = 400 if ctx.tier == "quick" else 6000
+    n = 400 if ctx.tier == "quick" else 40000
     out = os.path.join(ctx.work, "shard_trace_raw.ndjson")
     if os.path.exists(out):
         os.remove(out)
